@@ -178,6 +178,52 @@ def isometry_fact(op):
     return z3.ForAll([x, y], ip_atoms(op(x), op(y)).eq(ip_atoms(x, y)), patterns=[ipr(op(x), op(y)), ipi(op(x), op(y))])
 
 
+class KTen(ZArr):
+    """tensor = an abstract vector together with a shape (reshape does not change the entries: the Frobenius inner product of
+    two tensors of the same shape is np.vdot of the flattened arrays)"""
+    is_kten = True
+    def __init__(self, shape, vec):
+        ZArr.__init__(self, shape, 'complex'); self.vec = vec
+
+
+def _prod(shape):
+    t = z3.IntVal(1)
+    for d in shape:
+        t = t * zint(d)
+    return z3.simplify(t)
+
+
+def k_reshape(ex, st, node, args, kw):
+    from .libz import m_reshape, _shape_arg
+    a = args[0]
+    shp = args[1] if len(args) == 2 else tuple(args[1:])
+    if getattr(a, 'is_kten', False) or getattr(a, 'is_kvec', False):
+        vec = a.vec if getattr(a, 'is_kten', False) else a
+        shp = _shape_arg(shp)
+        if len(shp) == 1 and isinstance(shp[0], int) and shp[0] == -1:
+            return vec
+        if any(isinstance(d, int) and d == -1 for d in shp):
+            raise Unsupported('reshape with -1 among several dimensions')
+        oblige(ex, st, node, 'shape', f'{ast.unparse(node)[:50]}: reshape keeps the number of entries', _prod(shp) == zint(vec.shape[0]))
+        return KTen(shp, vec)
+    return m_reshape(ex, st, node, args, kw)
+
+
+def k_shape(ex, st, node, base):
+    if getattr(base, 'is_zarr', False):
+        return tuple(base.shape)
+    return NotImplemented
+
+
+def k_neg(ex, st, node, v):
+    from .libz import z_neg
+    if isinstance(v, KS):
+        return KS(-v.c, v.kind)
+    if getattr(v, 'is_kvec', False):
+        return v.scale(CV(-1))
+    return z_neg(ex, st, node, v)
+
+
 def zero_facts():
     x = z3.Const('x', VecS)
     return [z3.ForAll([x], z3.And(ip_atoms(x, ZEROV).eq(0), ip_atoms(ZEROV, x).eq(0)), patterns=[ipr(x, ZEROV), ipr(ZEROV, x), ipi(x, ZEROV), ipi(ZEROV, x)])]
@@ -249,6 +295,11 @@ def _window(ex, st, node, sl, n):
 
 
 def k_getitem(ex, st, node, base, key):
+    if getattr(base, 'is_kcols', False):
+        if isinstance(key, tuple) and len(key) == 2 and _full_slice(key[0]) and (isinstance(key[1], int) or is_z(key[1])):
+            a = norm_index(ex, st, node, key[1], base.shape[1], ast.unparse(node)[:40])
+            return KVec.atom(base.shape[0], base.col(a))
+        raise Unsupported(f'index {ast.unparse(node)[:40]} of a matrix of abstract columns')
     if getattr(base, 'is_kiso', False):
         if (isinstance(key, int) or is_z(key)) and base.rows is not None:
             i = norm_index(ex, st, node, key, base.shape[0], ast.unparse(node)[:40])
@@ -517,7 +568,7 @@ def k_exp(ex, st, node, args, kw):
     raise Unsupported('exp outside the fragment')
 
 
-LIB_K = {'np.exp': k_exp, 'np.linalg.norm': k_norm, 'np.vdot': k_vdot, 'getattr.real': k_real, 'getattr.eps': k_eps, 'np.zeros': k_zeros, 'getitem': k_getitem,
+LIB_K = {'np.exp': k_exp, '.reshape': k_reshape, 'getattr.shape': k_shape, 'neg': k_neg, 'np.linalg.norm': k_norm, 'np.vdot': k_vdot, 'getattr.real': k_real, 'getattr.eps': k_eps, 'np.zeros': k_zeros, 'getitem': k_getitem,
          'setitem': k_setitem, 'getattr.T': k_T, '.conj': k_conj, 'binop': k_binop, 'compare': k_compare, 'ifexp': k_ifexp}
 
 
@@ -828,6 +879,101 @@ def eigh_spec():
                 calls={'lanczos_iteration': k_lanczos_call, 'eigh_tridiagonal': k_eigh_tridiagonal})
 
 
+# ---- C08 / C10: the local steps of TDVP and DMRG against the contracts of expm_krylov / eigh_krylov (proved above) ----------
+
+def _the_map(f):
+    """the map handed to a Krylov routine: a lambda of the function under verification is *the* map `Afunc` of the callee's contract
+    (its body is not executed: the contracts used here hold for every map / for every linear Hermitian map, see the callers' notes)"""
+    from .symexec import Closure
+    if f is k_afunc or isinstance(f, Closure):
+        return True
+    raise Unsupported('first argument of the Krylov routine is not a map')
+
+
+def k_expm_krylov_call(ex, st, node, args, kw):
+    """callee contract of expm_krylov as proved in C15 (expm_spec): hermitian=True and Re dt = 0 => a vector of the same length and norm"""
+    if len(args) != 4 or not getattr(args[1], 'is_kvec', False) or not isinstance(args[2], KS):
+        raise Unsupported('call of expm_krylov outside its contract')
+    _the_map(args[0])
+    v, dt, numiter = args[1], args[2], args[3]
+    oblige(ex, st, node, 'precondition', 'expm_krylov: numiter >= 1', zint(numiter) >= 1)
+    res = z3.Const(f'vec!{next(_n)}', VecS)
+    herm = kw.get('hermitian', False)
+    if herm is True:
+        prem = ex.solver.implied([q for q in st.pc if is_z(q)], dt.c.re == 0, final=True)
+        ex.lemma_uses.append(('expm_krylov:norm_of_result_equals_norm_of_input', node.lineno, prem))
+        if prem is True:
+            st.pc.append(ip_atoms(res, res).eq(ip(v, v)))
+    return KVec.atom(v.shape[0], res)
+
+
+def k_eigh_krylov_call(ex, st, node, args, kw):
+    """callee contract of eigh_krylov as proved in C15 (eigh_spec): min(numeig, m') orthonormal Ritz vectors whose Rayleigh quotients
+    with respect to the map are the returned values (the map linear and Hermitian: hypotheses)"""
+    if len(args) != 4 or kw or not getattr(args[1], 'is_kvec', False):
+        raise Unsupported('call of eigh_krylov outside its contract')
+    _the_map(args[0])
+    v, numiter, numeig = args[1], zint(args[2]), zint(args[3])
+    oblige(ex, st, node, 'precondition', 'eigh_krylov: numiter >= 1 and numeig >= 1', z3.And(numiter >= 1, numeig >= 1))
+    nc = z3.Int(f'nritz!{next(_n)}'); st.pc.append(z3.And(nc >= 1, nc <= numeig))
+    f = z3.Function(f'ritz!{next(_n)}', I, R); col = z3.Function(f'ritzvec!{next(_n)}', I, VecS); a = z3.Int('a')
+    st.pc.append(orthonormal(lambda q: col(q), nc))
+    st.pc.append(z3.ForAll([a], z3.Implies(_in(a, nc), ip_atoms(col(a), Aop(col(a))).eq(CV(f(a))))))
+    return (K1(nc, lambda k: CV(f(k)), 'real'), KCols((v.shape[0], nc), lambda q: col(q)))
+
+
+def _opaque(name, nd):
+    return ZArr(tuple(z3.Int(f'{name}_dim{k}') for k in range(nd)), 'complex')
+
+
+def local_step_spec(which):
+    def make():
+        n = z3.Int('n'); m = z3.Int('numiter'); dtr, dti = z3.Reals('dt_re dt_im')
+        nd = 3 if which == 'hamiltonian' else 2
+        dims = tuple(z3.Int(f'a_dim{k}') for k in range(nd))
+        holder = {}
+        def args(vs):
+            holder['v'] = vs
+            ten = KTen(dims, KVec.atom(n, vs))
+            base = {'L': _opaque('L', 3), 'R': _opaque('R', 3), 'dt': KS(CV(dtr, dti), 'complex'), 'numiter': m}
+            if which == 'hamiltonian':
+                base.update({'W': _opaque('W', 4), 'A': ten})
+            else:
+                base.update({'C': ten})
+            return base
+        def post(ret, env, ex, st):
+            if not getattr(ret, 'is_kten', False):
+                raise Unsupported('returned value is not an abstract tensor')
+            same = z3.And(*[zint(x) == zint(y) for x, y in zip(ret.shape, dims)]) if len(ret.shape) == len(dims) else z3.BoolVal(False)
+            return [('result_has_shape_and_frobenius_norm_of_input [imaginary dt]', z3.And(same, ip(ret.vec, ret.vec).eq(ip_atoms(holder['v'], holder['v']))))]
+        def canary(ret, env, ex, st):
+            return [('c', ip(ret.vec, ret.vec).eq(CV(2) * ip_atoms(holder['v'], holder['v']) + CV(1)))]
+        return dict(n=n, m=m, hermitian=True, args=args, requires=[dtr == 0, n == _prod(dims)] + [d >= 1 for d in dims], post=post, canary=canary,
+                    calls={'expm_krylov': k_expm_krylov_call})
+    return make
+
+
+def minimize_spec():
+    n = z3.Int('n'); m = z3.Int('numiter')
+    dims = tuple(z3.Int(f'a_dim{k}') for k in range(3))
+    def args(vs):
+        return {'L': _opaque('L', 3), 'R': _opaque('R', 3), 'W': _opaque('W', 4), 'Astart': KTen(dims, KVec.atom(n, vs)), 'numiter': m}
+    def post(ret, env, ex, st):
+        w0, A = ret
+        if not (isinstance(w0, KS) and getattr(A, 'is_kten', False)):
+            raise Unsupported('returned values are not of the expected abstract form')
+        same = z3.And(*[zint(x) == zint(y) for x, y in zip(A.shape, dims)]) if len(A.shape) == len(dims) else z3.BoolVal(False)
+        t = materialize(st, A.vec)
+        return [('returned_tensor_has_input_shape_and_unit_norm', z3.And(same, ip_atoms(t, t).eq(1))),
+                ('returned_energy_is_rayleigh_quotient_of_returned_tensor', z3.And(w0.c.im == 0, ip_atoms(t, Aop(t)).eq(w0.c)))]
+    def canary(ret, env, ex, st):
+        w0, A = ret
+        t = materialize(st, A.vec)
+        return [('c', ip_atoms(t, Aop(t)).eq(w0.c + CV(1)))]
+    return dict(n=n, m=m, hermitian=True, args=args, requires=[n == _prod(dims)] + [d >= 1 for d in dims], post=post, canary=canary,
+                calls={'eigh_krylov': k_eigh_krylov_call})
+
+
 def verify_fn(fn, spec_fn, confirm):
     from .symexec import Exec, State
     from .libz import LIB_Z, make_loop_handler
@@ -901,7 +1047,9 @@ def verify_fn(fn, spec_fn, confirm):
 
 TARGETS = {'C14': (('krylov.arnoldi_iteration', arnoldi_spec, ['arnoldi_iteration']), ('krylov.lanczos_iteration', lanczos_spec, ['lanczos_iteration']),
                    ('krylov.arnoldi_iteration', first_vector_spec('arnoldi'), ['arnoldi_iteration']), ('krylov.lanczos_iteration', first_vector_spec('lanczos'), ['lanczos_iteration'])),
-           'C15': (('krylov.expm_krylov', expm_spec, ['expm_krylov']), ('krylov.eigh_krylov', eigh_spec, ['eigh_krylov']))}
+           'C15': (('krylov.expm_krylov', expm_spec, ['expm_krylov']), ('krylov.eigh_krylov', eigh_spec, ['eigh_krylov'])),
+           'C08': (('evolution._local_hamiltonian_step', local_step_spec('hamiltonian'), ['integrate_local']), ('evolution._local_bond_step', local_step_spec('bond'), ['integrate_local'])),
+           'C10': (('minimization._minimize_local_energy', minimize_spec, ['calculate_ground_state']),)}
 
 
 def verify(prop='C14', tier='quick'):
